@@ -140,7 +140,9 @@ Corollary reaches_inv (I : state -> Prop) :
   forall s s', I s -> reaches s s' -> I s'.
 Proof.
   intros Hb Hd s s' Hs Hr.
-  apply (reaches_inv_rel I (fun _ _ => True)) with (s := s); auto.
+  refine (proj1 (reaches_inv_rel I (fun _ _ => True) (fun _ => Logic.I) (fun _ _ _ _ _ => Logic.I) _ _ s s' Hs Hr)).
+  - intros t a b Ha Hab. split; [eapply Hb; eassumption | exact Logic.I].
+  - intros e a m Ha. split; [apply Hd; exact Ha | exact Logic.I].
 Qed.
 
 (* a run never fails when begin-block never fails on states satisfying a preserved invariant *)
@@ -151,7 +153,7 @@ Theorem run_total_of (I : state -> Prop) authority :
 Proof.
   intros Hb Hd. unfold run. induction h as [|bl h IH]; intros s Hs; cbn [lfold]; [eauto|].
   rewrite run_block_unfold. destruct (Hb (blk_time bl) s Hs) as (s1 & H1 & I1). rewrite H1. cbn [lbind].
-  apply IH. unfold deliver_all. generalize dependent s1. clear - Hd.
-  induction (blk_msgs bl) as [|m ms IHm]; intros s1 _ I1; cbn [fold_left]; [exact I1|].
-  apply IHm; [exact I | apply Hd; exact I1].
+  apply IH. unfold deliver_all. clear H1. revert s1 I1.
+  induction (blk_msgs bl) as [|m ms IHm]; intros s1 I1; cbn [fold_left]; [exact I1|].
+  apply IHm. apply Hd. exact I1.
 Qed.
